@@ -100,27 +100,57 @@ func runLabel(c *core.Ctx) {
 					short+" is labelled with "+ap+", want "+labelExceptionPath[fname(c, root)]+" ("+why+")")
 				continue
 			}
-			m := labelRe.FindStringSubmatch(ap)
-			good := m != nil && m[2] == want
-			if good {
-				// the parameter is (asserted to) a client message of this function
-				good = false
-				for _, f := range []*ssa.Function{fn, root} {
-					for _, p := range f.Params {
-						if p.Name() != m[1] {
-							continue
-						}
-						tn := typeNameOf(p.Type())
-						if tn == "ClientMsg" || strings.HasPrefix(tn, "Client") {
-							good = true
-						}
-					}
-				}
-			}
+			good := labelFromRequest(c, fn, call.Call.Args[0], want, 0)
 			c.Check(good, props, fname(c, fn), construct, P.Pos(call.Pos()), short+" labelled with "+ap,
 				short+" is labelled with "+ap+", want the request's "+want+": the client cannot match the reply to its request")
 		}
 	}
+}
+
+// labelFromRequest: v (in fn) is the request's id field `want` — read from a
+// client-message parameter of fn (or of the function fn is nested in), or, if
+// fn is a private helper that takes the id as a parameter, at every call site
+// of fn.
+func labelFromRequest(c *core.Ctx, fn *ssa.Function, v ssa.Value, want string, depth int) bool {
+	ap := an.PathOf(v)
+	root := fn
+	for root.Parent() != nil {
+		root = root.Parent()
+	}
+	if m := labelRe.FindStringSubmatch(ap); m != nil && m[2] == want {
+		for _, f := range []*ssa.Function{fn, root} {
+			for _, p := range f.Params {
+				if p.Name() != m[1] {
+					continue
+				}
+				tn := typeNameOf(p.Type())
+				if tn == "ClientMsg" || strings.HasPrefix(tn, "Client") {
+					return true
+				}
+			}
+		}
+		return false
+	}
+	par, isPar := an.Unwrap(v).(*ssa.Parameter)
+	if !isPar || depth >= 2 || !an.PrivateHelper(fn) {
+		return false
+	}
+	idx := -1
+	for i, p := range fn.Params {
+		if p == par {
+			idx = i
+		}
+	}
+	sites := 0
+	for _, g := range libFuncs(c) {
+		for _, site := range callsTo(g, fn) {
+			sites++
+			if idx >= len(site.Call.Args) || !labelFromRequest(c, g, site.Call.Args[idx], want, depth+1) {
+				return false
+			}
+		}
+	}
+	return sites > 0
 }
 
 // routerMsgFunc: the RouterHandler method that calls Subscribe, Publish and Unsubscribe.
@@ -249,30 +279,38 @@ func runSubKey(c *core.Ctx) {
 	sub := P.Method(P.Root, "subscribers", "Subscribe")
 	unsub := P.Method(P.Root, "subscribers", "Unsubscribe")
 	unall := P.Method(P.Root, "subscribers", "UnsubscribeAll")
-	newSub := P.Root.Func("newSubscriber")
+	// the function that builds a subscriber (a constructor helper, or whoever writes the literal)
+	var newSub *ssa.Function
+	for _, f := range libFuncs(c) {
+		an.Instrs(f, func(in ssa.Instruction) {
+			if a, ok := in.(*ssa.Alloc); ok && typeNameOf(a.Type()) == "subscriber" && a.Comment == "complit" {
+				newSub = f
+			}
+		})
+	}
 	if sub == nil || unsub == nil || unall == nil || newSub == nil {
-		c.NoAnchor(nil, "subscribers.Subscribe/Unsubscribe/UnsubscribeAll, newSubscriber")
+		c.NoAnchor(nil, "subscribers.Subscribe/Unsubscribe/UnsubscribeAll, subscriber literal")
 		return
 	}
 	c.CountFuncs(4)
 	// keys used on the outer map (receiver path recv.subs) and on inner maps
 	keys := func(fn *ssa.Function) (outer, inner []string) {
-		for _, ci := range calls(fn) {
-			call, ok := ci.(*ssa.Call)
+		an.Region(fn, func(g *ssa.Function) bool { return recvTypeName(g) == "safeMap" }, func(o an.Occ) {
+			call, ok := o.In.(*ssa.Call)
 			if !ok {
-				continue
+				return
 			}
 			sc := an.StaticCallee(&call.Call)
 			if sc == nil || recvTypeName(sc) != "safeMap" || len(call.Call.Args) < 2 {
-				continue
+				return
 			}
-			k := an.PathOf(call.Call.Args[1])
-			if an.PathOf(call.Call.Args[0]) == "recv.subs" {
+			k := o.Path(call.Call.Args[1])
+			if o.Path(call.Call.Args[0]) == "recv.subs" {
 				outer = append(outer, originOf(sc).Name()+"("+k+")")
 			} else {
 				inner = append(inner, originOf(sc).Name()+"("+k+")")
 			}
-		}
+		})
 		return
 	}
 	all := func(xs []string, want string) bool {
@@ -313,9 +351,22 @@ func runSubKey(c *core.Ctx) {
 			}
 			return "-"
 		}
-		mp := "p:" + newSub.Params[1].Name()
-		good = get("ReqID") == "p:"+newSub.Params[0].Name() && get("SubscriptionID") == mp+".SubscriptionID" &&
-			get("Ch") == "p:"+newSub.Params[2].Name() && strings.Contains(get("Matcher"), "NewReqFiltersEventLimitMatcher("+mp+".ReqFilters)")
+		// ReqID ← a string parameter (the connection id), SubscriptionID and Matcher ← one
+		// request parameter, Ch ← a channel parameter
+		mp := strings.TrimSuffix(get("SubscriptionID"), ".SubscriptionID")
+		isParam := func(p string, pred func(types.Type) bool) bool {
+			for _, par := range newSub.Params {
+				if p == "p:"+par.Name() && pred(par.Type()) {
+					return true
+				}
+			}
+			return false
+		}
+		isStr := func(t types.Type) bool { b, ok := t.Underlying().(*types.Basic); return ok && b.Kind() == types.String }
+		isCh := func(t types.Type) bool { _, ok := t.Underlying().(*types.Chan); return ok }
+		isReq := func(t types.Type) bool { return strings.HasPrefix(typeNameOf(t), "Client") }
+		good = isParam(get("ReqID"), isStr) && mp != get("SubscriptionID") && isParam(mp, isReq) &&
+			isParam(get("Ch"), isCh) && strings.Contains(get("Matcher"), "NewReqFiltersEventLimitMatcher("+mp+".ReqFilters)")
 		detail = fmt.Sprintf("ReqID←%s SubscriptionID←%s Ch←%s Matcher←%s", get("ReqID"), get("SubscriptionID"), get("Ch"), clip(get("Matcher"), 70))
 	}
 	c.Check(good, nil, fname(c, newSub), "fields", P.Pos(newSub.Pos()), detail, "subscriber fields not taken from (connection id, request, queue): "+detail)
@@ -356,20 +407,6 @@ func runBuf(c *core.Ctx) {
 	})
 	c.Check(cfgField != "" && size == "recv."+cfgField, nil, fname(c, serve), "queue/capacity", P.Pos(mc.Pos()), "queue capacity = "+size+" = the constructor argument", "queue capacity is "+size+", not the configured buffer length (recv."+cfgField+")")
 	// exactly one receiver, inside a goroutine of this function
-	recvs := 0
-	for _, f := range an.WithAnon(serve) {
-		for _, op := range an.ChanOps(f) {
-			if op.Kind == an.OpSelect {
-				for _, st := range op.Select.States {
-					if st.Dir == types.RecvOnly && an.MakeChanOf(st.Chan) == mc {
-						recvs++
-					}
-				}
-			}
-			if op.Kind == an.OpRecv && an.MakeChanOf(op.Chan) == mc {
-				recvs++
-			}
-		}
-	}
+	recvs := an.RecvSites(serve, func(v ssa.Value) bool { return an.MakeChanOf(v) == mc }, 0)
 	c.Check(recvs == 1, nil, fname(c, serve), "queue/single-receiver", P.Pos(mc.Pos()), "the queue is drained by exactly one receive site (FIFO per subscription)", fmt.Sprintf("%d receive sites on the per-connection queue: deliveries can be reordered or lost", recvs))
 }
